@@ -1247,5 +1247,5 @@ def generate(ctx):
     r = anchors.build(REPO, "C07", ["DPL.Model.PlanTools"], anchors.c07_specs(), opens="", postlude=anchors.C07_POST)
     ctx.count("formula_anchors", r["obligations"])
     if r["errors"]:
-        r["error"] = "; ".join(r["errors"])
+        r["unavailable"] = r["errors"]      # anchors that could not be located / translated (not failed obligations)
     return r
